@@ -84,6 +84,8 @@ Definition circ_must_products (c : circ_in) (h : list variant) : list seq :=
            (filter (fun st => st <? L) (atg_positions hs 0)).
 
 Definition must_circ_set (c : circ_in) (x : input) : list seq :=
-  filter (fun p => negb (mem_seq p (ref_products x)) && negb (mem_seq p (may_set x)) && negb (mem_seq p (c_pool c)))
+  let rp := ref_products x in
+  let ms := may_set x in          (* bound outside the filter: computed once by the extracted oracle *)
+  filter (fun p => negb (mem_seq p rp) && negb (mem_seq p ms) && negb (mem_seq p (c_pool c)))
          (flat_map (circ_must_products c)
                    ([] :: filter circ_must_hap (haplotypes true (circ_vars false c)))).
